@@ -414,6 +414,9 @@ def patched(*modules, extra=None):
                 setg(d, k, v)
             if isinstance(d.get("re"), types.ModuleType):
                 setg(d, "re", proxy)
+            if callable(d.get("warn")) and getattr(d.get("warn"), "__module__", "") == "ford.console":
+                # console output is not part of any property: the message may contain symbolic text
+                setg(d, "warn", lambda *a, **k: None)
             for k, v in list(d.items()):
                 if isinstance(v, types.FunctionType) and v.__module__ == m.__name__:
                     nv = _rewritten(v)
